@@ -268,7 +268,7 @@ Proof.
   unfold connp_req_data. intros H.
   destruct (c_in_status c =? c_HTP_STREAM_STOP); [injection H as _ H; vm_compute in H; discriminate|].
   destruct (c_in_status c =? c_HTP_STREAM_ERROR); [injection H as _ H; vm_compute in H; discriminate|].
-  destruct (match c_in_tx c with None => negb (req_state_eqb (c_in_state c) REQ_IDLE) | Some _ => false end);
+  destruct (match c_in_tx c with None => negb (req_state_eqb (c_in_state c) REQ_IDLE) && negb (c_in_status c =? c_HTP_STREAM_TUNNEL) | Some _ => false end);
     [injection H as _ H; vm_compute in H; discriminate|].
   destruct ((len =? 0)%nat && negb (c_in_status c =? c_HTP_STREAM_CLOSED)); [injection H as _ H; vm_compute in H; discriminate|].
   cbv zeta in H.
@@ -393,7 +393,7 @@ Proof.
   intros Hi Hd Hncl H Hz. unfold connp_req_data in H.
   destruct (c_in_status c =? c_HTP_STREAM_STOP); [injection H as _ H; vm_compute in H; discriminate|].
   destruct (c_in_status c =? c_HTP_STREAM_ERROR); [injection H as _ H; vm_compute in H; discriminate|].
-  destruct (match c_in_tx c with None => negb (req_state_eqb (c_in_state c) REQ_IDLE) | Some _ => false end);
+  destruct (match c_in_tx c with None => negb (req_state_eqb (c_in_state c) REQ_IDLE) && negb (c_in_status c =? c_HTP_STREAM_TUNNEL) | Some _ => false end);
     [injection H as _ H; vm_compute in H; discriminate|].
   destruct ((length d =? 0)%nat && negb (c_in_status c =? c_HTP_STREAM_CLOSED)); [injection H as _ H; vm_compute in H; discriminate|].
   set (c1 := (rq_set_in _ c) <| c_in_chunk_count ::= S |> <| c_in_data_counter ::= Z.add (Z.of_nat (length d)) |>) in H.
